@@ -45,6 +45,7 @@ class Ownership:
         self.RET = ("ret", id(root))
         self.refcount_vars: Set[Tuple[int, str]] = set()
         self.call_nodes: Dict[int, object] = {}
+        self.callsites: Dict[object, List[object]] = collections.defaultdict(list)
         self.tree: List[Fn] = []
         self._collect_tree(root)
         self._find_refcounts()
@@ -261,7 +262,10 @@ class Ownership:
                         pv = ("v", id(g), k.arg)
                         self.edge(an, pv)
                         self.edge(pv, an)
-                return self.ret_of(g)
+                # the value of *this* call: every call site must hold what the helper returns
+                cs = self.fresh("callsite:" + g.name)
+                self.callsites[self.ret_of(g)].append(cs)
+                return cs
         if isinstance(f, ast.Call):
             # synchronized(lock)(fn) and similar: no ownership
             self.node_of(f, cur)
@@ -338,17 +342,29 @@ class Ownership:
 
     # -- verdicts -------------------------------------------------------
     def reaches_ret(self, start: object) -> bool:
-        seen = {start}
-        st = [start]
-        while st:
-            x = st.pop()
+        """OR over held-by edges; the return node of a local helper is an AND over its call sites (each call
+        site must hold the value the helper returns)."""
+        memo: Dict[object, bool] = {}
+
+        def go(x: object, stack: Set[object]) -> bool:
             if x == self.RET:
                 return True
+            if x in memo:
+                return memo[x]
+            if x in stack:
+                return False
+            stack = stack | {x}
+            res = False
             for y in self.edges.get(x, ()):
-                if y not in seen:
-                    seen.add(y)
-                    st.append(y)
-        return False
+                if go(y, stack):
+                    res = True
+                    break
+            if not res and x in self.callsites and self.callsites[x]:
+                res = all(go(cs, stack) for cs in self.callsites[x])
+            memo[x] = res
+            return res
+
+        return go(start, set())
 
     def results(self) -> List[Tuple[Acq, bool]]:
         return [(a, self.reaches_ret(nid)) for nid, a in self.acqs]
